@@ -11,7 +11,7 @@
    The subscriber slots are fixed at 3 per component (Model.nslots, IpoeModel: three slots): theorems quantify over
    every slot index, the bound is that of the model, not of a theorem.  [vrep v = false] is the code before the
    fixes; only [_refuted] witnesses speak about it. *)
-From OV Require Import Common.Base C03.Model C03.Proofs C03.GateDefs C03.GateInv C03.GateMain C03.GateReject C03.GateObs C03.GateLeak C03.GateLeakMain.
+From OV Require Import Common.Base C03.Model C03.Proofs C03.GateDefs C03.GateInv C03.GateMain C03.GateReject C03.GateObs C03.GateLeak C03.GateLeakMain C03.GateLeakV4.
 
 (* Outside the Network/Open phases an IPCP, IPv6CP or IPv6 (RS / NS / DHCPv6 SOLICIT / DHCPv6 REQUEST) frame changes
    nothing and produces no output: internal/ppp/dispatcher.go inNetworkPhase.  (Every state, every variant; the
@@ -204,6 +204,16 @@ Example C03_ipv6_leases_nonvacuous :
   free6 (fst (run v (init3 2 0 16) (ev_open6 ++ [EvFrame 0 FrDh6Req; EvPadt 0]))) = (0, 16).
 Proof. intros v st. repeat match goal with |- _ /\ _ => split end; timeout 20 (vm_compute; reflexivity). Qed.
 Print Assumptions C03_ipv6_leases_nonvacuous.
+(* neither an address nor a prefix resolves (both pools empty): the DHCPv6 message is not answered and nothing changes
+   (forwardDHCPv6 since e76425b); RS is still answered — the session is Open *)
+Example C03_dh6_unresolved_nonvacuous :
+  let v := mkV true false in
+  let st := fst (run v (init3 2 0 0) ev_open6) in
+  option_map (fun s => (ph s, ip6cp_open s)) (nth_error (sl st) 0) = Some (POpen, true) /\
+  step v st (EvFrame 0 FrDh6Sol) = (st, []) /\ step v st (EvFrame 0 FrDh6Req) = (st, []) /\
+  map snd (snd (step v st (EvFrame 0 FrRs))) = [ORa].
+Proof. intros v st. repeat match goal with |- _ /\ _ => split end; timeout 20 (vm_compute; reflexivity). Qed.
+Print Assumptions C03_dh6_unresolved_nonvacuous.
 (* before e9950ea (no link-end teardown): the re-authentication built a new AllocCtx that does not know the session's
    IA_NA address, the next DHCPv6 REQUEST takes a second one and rebinds, and the teardown returns only that one *)
 Example C03_ipv6_reneg_leak_refuted :
@@ -305,8 +315,7 @@ Print Assumptions C03_teardown_leak_pre_277708f_refuted.
    stays there or emits GLcpDown" (then [vtd] tears the session down), "Timeout in LCP Opened does nothing", "the accept
    ends in Network/Open", and the preservation of the per-family invariant by DHCPv6 with late resolution and
    re-reservation.  Each of vtd / vnm is needed: C03_ipv6_reneg_leak_refuted, C03_teardown_leak_pre_277708f_refuted.
-   NOT covered: the IPv4 disjunct of [leaks] (a pool lease shadowed by another address: onIPCPUp copies the address the
-   client's acknowledged Configure-Request carried) — monitored on both sides only. *)
+   The IPv4 disjunct of [leaks]: C03_no_leaks below. *)
 Theorem C03_teardown_no_leak : forall v pool p6 ppd evs i s, good v ->
   nth_error (sl (fst (run v (init3 pool p6 ppd) evs))) i = Some s ->
   xn (na (v6 s)) = released (na (v6 s)) /\ xn (pd (v6 s)) = released (pd (v6 s)) /\
@@ -326,6 +335,16 @@ Proof.
   split; [repeat split|]. split; [repeat split|]. split; timeout 20 (vm_compute; reflexivity).
 Qed.
 Print Assumptions C03_teardown_no_leak_nonvacuous.
+
+(* C03_no_leaks (GateLeakV4.v): the whole [Model.leaks] predicate, i.e. also the IPv4 pool lease.  On the repaired code,
+   after ANY history, no session of any slot owns anything its teardown does not (did not) return: no pool lease shadowed
+   by another s.IPv4Address (a Framed-IP of a second accept, or what onIPCPUp copies from the client's acknowledged
+   Configure-Request: always the assigned address), no IA_NA address, no delegated prefix.  This is the statement both
+   teardown monitors check at run time (harness: the registry holds nothing for the session id; driver: Model.leaks). *)
+Theorem C03_no_leaks : forall v pool p6 ppd evs i s, good v ->
+  nth_error (sl (fst (run v (init3 pool p6 ppd) evs))) i = Some s -> leaks s = false.
+Proof. exact GateLeakV4.no_leaks. Qed.
+Print Assumptions C03_no_leaks.
 
 (* C03_renegotiation_reauth.  Split any history at a point where slot i's monitor holds no accept (mn1; in
    particular right after LCP left Opened, [C03_lcp_down_clears_accept]).  If in the continuation no allowed AAA
